@@ -7,14 +7,14 @@ From Comdex Require Import Lib.Base Model.Market Proofs.MarketProofs.
    [ghost_run] computes, from those inputs alone, the positive samples accepted since the last
    window reset (most recent first). *)
 
-(* the price pipeline never indexes outside its window or panics, for every n >= 2 *)
-Theorem c17_no_panic : forall n gap ops, 2 <= n ->
+(* the price pipeline never indexes outside its window or panics, for every window size n >= 1 *)
+Theorem c17_no_panic : forall n gap ops, 1 <= n ->
   exists t', mrun n gap None ops = Ok t' /\ Inv17 n (ghost_run gap ghost0 ops) t'.
 Proof. intros n gap ops Hn. exact (mrun_inv n gap ops ghost0 None Hn (inv_init n)). Qed.
 Print Assumptions c17_no_panic.
 
 (* active only after n positive samples since the last reset, window never over-full *)
-Theorem c17_activation : forall n gap ops tw, 2 <= n ->
+Theorem c17_activation : forall n gap ops tw, 1 <= n ->
   mrun n gap None ops = Ok (Some tw) ->
   (active tw = true -> zlen (g_hist (ghost_run gap ghost0 ops)) >= n) /\
   Forall (fun x => x > 0) (g_hist (ghost_run gap ghost0 ops)) /\
@@ -30,14 +30,13 @@ Proof.
 Qed.
 Print Assumptions c17_activation.
 
-(* from then on the published price is the integer mean of the most recent n samples; the
-   uint64 sum of the code wraps, which is made explicit by [mod two64] *)
-Theorem c17_mean : forall n gap ops h r t tw', 2 <= n -> r > 0 ->
+(* from then on the published price is the integer mean of the most recent n samples (the sum
+   is carried in 128 bits since the fix of C17-F2, so there is no wrap guard) *)
+Theorem c17_mean : forall n gap ops h r t tw', 1 <= n -> r > 0 ->
   mrun n gap None ops = Ok t ->
   mstep n gap t (Sample h r) = Ok (Some tw') -> active tw' = true ->
   let hist := g_hist (ghost_run gap ghost0 (ops ++ [Sample h r])) in
-  avg tw' = (zsum (firstn (Z.to_nat n) hist) mod two64) / n /\
-  (zsum (firstn (Z.to_nat n) hist) < two64 -> avg tw' = zsum (firstn (Z.to_nat n) hist) / n).
+  avg tw' = zsum (firstn (Z.to_nat n) hist) / n.
 Proof.
   intros n gap ops h r t tw' Hn Hr Hrun Hs Ha hist.
   destruct (mrun_inv n gap ops ghost0 None Hn (inv_init n)) as (t0 & Hr0 & HI).
@@ -45,8 +44,7 @@ Proof.
   assert (Hm := sample_mean n gap _ t h r _ tw' Hn HI Hr Hs eq_refl Ha).
   assert (Hh : hist = g_hist (ghost_step gap (ghost_run gap ghost0 ops) (Sample h r))).
   { unfold hist, ghost_run. rewrite fold_left_app. reflexivity. }
-  rewrite Hh. split; [exact Hm|]. intros Hlt. rewrite Hm. f_equal. apply Z.mod_small. split; [|exact Hlt].
-  apply zsum_firstn_nonneg. apply ghost_pos. apply ghost_run_pos. constructor.
+  rewrite Hh. exact Hm.
 Qed.
 Print Assumptions c17_mean.
 
@@ -86,25 +84,30 @@ Theorem c17_inactive_error : forall t,
 Proof. intros [tw|] H; cbn; [rewrite H|]; auto. Qed.
 Print Assumptions c17_inactive_error.
 
-(* ---- the two places where the unchanged code does not meet the property (known findings) ---- *)
+(* ---- formerly refuted, now proved: the two defects repaired in /repo by "fix:" commits ---- *)
 
-(* window size 1: the second positive sample indexes PriceValue[1] of a 1-element window *)
-Theorem c17_n1_refuted : exists gap ops, mrun 1 gap None ops = Panic.
-Proof. exists 10, [Sample 20 5; Sample 40 6]. vm_compute. reflexivity. Qed.
-Print Assumptions c17_n1_refuted.
-
-(* uint64 wrap: two samples of 2^63 publish an ACTIVE price of 0 instead of 2^63 *)
-Theorem c17_overflow_refuted : exists ops tw,
-  mrun 2 10 None ops = Ok (Some tw) /\ active tw = true /\ avg tw = 0 /\
-  zsum (firstn 2 (g_hist (ghost_run 10 ghost0 ops))) / 2 = 9223372036854775808.
+(* window size 1 (C17-F1): the first sample completes the window; any history is panic-free and
+   the published value is the last sample *)
+Theorem c17_n1_holds : forall gap ops, exists t', mrun 1 gap None ops = Ok t'.
 Proof.
-  exists [Sample 20 9223372036854775808; Sample 40 9223372036854775808].
-  eexists. vm_compute. repeat split.
+  intros gap ops. destruct (mrun_inv 1 gap ops ghost0 None ltac:(lia) (inv_init 1)) as (t' & H & _).
+  exists t'. exact H.
 Qed.
-Print Assumptions c17_overflow_refuted.
+Print Assumptions c17_n1_holds.
+
+(* large samples (C17-F2): two samples of 2^63 publish 2^63, not 0 *)
+Theorem c17_no_wrap_witness : exists tw,
+  mrun 2 10 None [Sample 20 9223372036854775808; Sample 40 9223372036854775808] = Ok (Some tw) /\
+  active tw = true /\ avg tw = 9223372036854775808.
+Proof. eexists. vm_compute. repeat split. Qed.
+Print Assumptions c17_no_wrap_witness.
 
 (* non-vacuity: a concrete history that meets the hypotheses and reaches an active state *)
 Example c17_nonvacuous :
   exists tw, mrun 3 10 None [Sample 20 5; Sample 40 7; Sample 60 9; Sample 80 11] = Ok (Some tw)
              /\ active tw = true /\ avg tw = 9.
+Proof. eexists. vm_compute. repeat split. Qed.
+
+Example c17_nonvacuous_n1 :
+  exists tw, mrun 1 10 None [Sample 20 5; Sample 40 7] = Ok (Some tw) /\ active tw = true /\ avg tw = 7.
 Proof. eexists. vm_compute. repeat split. Qed.
